@@ -22,6 +22,9 @@ def val : List Nat → Nat
 /-- well-formed: exactly `n` digits, each a uint16 -/
 def Wf (n : Nat) (a : List Nat) : Prop := a.length = n ∧ ∀ d ∈ a, d < B
 
+/-- the modulus of an `n`-digit value: `2^(bits*n)` (theorem `W_eq`) -/
+def W (n : Nat) : Nat := B ^ n
+
 def zeros (n : Nat) : List Nat := List.replicate n 0
 
 /-- `assign(uintmax_t x)`: the low `min n 4` digits of `x`, the rest zero -/
@@ -32,6 +35,16 @@ def assignLoop : Nat → Nat → List Nat
 def assign (n : Nat) (x : Nat) : List Nat :=
   let no := assignDigits n
   assignLoop no x ++ zeros (n - no)
+
+/-- result of a constructor call -/
+inductive CRes where
+  | ok (v : List Nat)
+  | negative
+  deriving Repr, BEq, DecidableEq
+
+/-- constructor from a signed built-in: `if (y < 0) DUNE_THROW(Dune::Exception, …); assign(y);` -/
+def ofSigned (n : Nat) (y : Int) : CRes :=
+  if y < 0 then .negative else .ok (assign n y.toNat)
 
 /-- `operator+=` : sum = a_i + x_i + overflow; digit = sum & bitmask; overflow = (sum>>bits)&overflowmask -/
 def addLoop : List Nat → List Nat → Nat → List Nat
@@ -183,10 +196,15 @@ def firstInZeroRange : List Nat → Nat
 /-- `todouble()` as an exact natural number: the top `representableDigits` non-zero-range digits by Horner,
     scaled by `2^(bits*last)`.  Every intermediate is an integer below 2^48 times a power of two, hence exact
     in IEEE double; the model value is what the C++ returns (for results below 2^1024). -/
-def todoubleN (a : List Nat) : Nat :=
+def todoubleParts (a : List Nat) : Nat × Nat :=
   let f := firstInZeroRange a
   let last := if representableDigits < f then f - representableDigits else 0
-  val ((a.take f).drop last) * 2 ^ (bits * last)
+  (val ((a.take f).drop last), bits * last)
+
+/-- `std::ldexp(val, bits*lastInRepresentableRange)` with `(val, exponent) = todoubleParts a`; theorem
+    `todouble_mantissa_exact` shows `val < 2^53`, so the Horner loop and the ldexp are exact in double. -/
+def todoubleN (a : List Nat) : Nat :=
+  (todoubleParts a).1 * 2 ^ (todoubleParts a).2
 
 def maxVal (n : Nat) : List Nat := List.replicate n bitmask
 
